@@ -9,8 +9,11 @@ ops     := concat n M_1 … M_n | export_idx M k i_1 … i_k | export_sub M labe
          | add|replace|update|extend|extend_new|extend_matrix M O
          | remove|discard|keep M k t_1 … t_k
          | new_subset M label k i_1 … i_k | sizes M
+         | history M k { call }   (call = a mutating single operation without its first matrix: `add O`, `remove k t…`,
+                                   `fill v size app`, `getitem t`, …; answer: the state after `run`)
          | getitem M t | setitem M t k c_1 … c_k | newseq M t k c_1 … c_k | delitem M t | clear M | items M
          | concat_streams k { n tok_1 … tok_n }   (each stream = the n tokens of a matrix; unparsable = reader error)
+         | concat_streams_ns k { n tok_1 … tok_n }   (each stream = `label nrows { taxon ncells c… }`, read into ONE growing namespace)
          | concat_paths k { 0 | 1 n tok_1 … tok_n }   (0 = the path cannot be opened)
 answers := `ok [size] R taxon=c.c.c … S label=i.i …` (rows sorted by taxon: the dict's insertion order is not part of the
            statement — it only decides `sequence_size` of ragged matrices — and is deliberately not compared) | `ValueError` | `KeyError [R … S …]` | `IndexError`
@@ -107,6 +110,15 @@ def showSRes : Except SErr Matrix → String
   | .error (.parseError _) => "ParseError"
   | .error (.concat e) => showErr e
 
+/-- one stream read into the shared namespace: `label nrows { taxon ncells c_1 … }` -/
+def pParsed : P Parsed := do
+  let label ← pLabel
+  let rows ← pCounted (do
+    let t ← pNat
+    let cells ← pCounted pNat
+    pure (t, cells))
+  pure { label, rows }
+
 /-- a path: `0` cannot be opened, `1 n tok…` opens to a stream of n tokens -/
 def pPath : P (Option (List String)) := do
   let t ← tok
@@ -114,6 +126,48 @@ def pPath : P (Option (List String)) := do
   else if t == "1" then do
     let toks ← pCounted tok
     pure (some toks)
+  else failure
+
+/-- protocol invariant: the same namespace identity always comes with the same member list (one Python object);
+    input that breaks it is not a state of the library and is refused as `bad-op` -/
+def coherent (ms : List Matrix) : Bool :=
+  ms.all (fun a => ms.all (fun b => a.ns != b.ns || a.taxa == b.taxa))
+
+def opMatrices : Op → List Matrix
+  | .add o | .replace o | .update o | .extend _ o | .extendMatrix o => [o]
+  | _ => []
+
+/-- one call of a history: the single-operation syntax without the matrix it is applied to -/
+def pOp : P Op := do
+  let name ← tok
+  if name == "add" then return .add (← pMatrix)
+  else if name == "replace" then return .replace (← pMatrix)
+  else if name == "update" then return .update (← pMatrix)
+  else if name == "extend" then return .extend false (← pMatrix)
+  else if name == "extend_new" then return .extend true (← pMatrix)
+  else if name == "extend_matrix" then return .extendMatrix (← pMatrix)
+  else if name == "remove" then return .remove (← pCounted pNat)
+  else if name == "discard" then return .discard (← pCounted pNat)
+  else if name == "keep" then return .keep (← pCounted pNat)
+  else if name == "fill" then do
+    let v ← pNat; let s ← pSize; let a ← pBool
+    return .fill v s a
+  else if name == "pack" then do
+    let v ← pNat; let s ← pSize; let a ← pBool
+    return .pack v s a
+  else if name == "fill_taxa" then return .fillTaxa
+  else if name == "new_subset" then do
+    let l ← pSomeLabel; let idx ← pCounted pNat
+    return .newSubset l idx
+  else if name == "getitem" then return .getItem (← pNat)
+  else if name == "setitem" then do
+    let t ← pNat; let r ← pCounted pNat
+    return .setItem t r
+  else if name == "newseq" then do
+    let t ← pNat; let r ← pCounted pNat
+    return .newSequence t r
+  else if name == "delitem" then return .delItem (← pNat)
+  else if name == "clear" then return .clear
   else failure
 
 /-- run a parser on the whole argument list; leftovers are an error -/
@@ -126,7 +180,7 @@ def handle (ws : List String) : String :=
   match ws with
   | "concat" :: rest =>
     match whole (pCounted pMatrix) rest with
-    | some ms => showRes (concatenate ms)
+    | some ms => if coherent ms then showRes (concatenate ms) else "bad-op"
     | none => "bad-op"
   | "export_idx" :: rest =>
     match whole (do let m ← pMatrix; let idx ← pCounted pInt; pure (m, idx)) rest with
@@ -148,6 +202,14 @@ def handle (ws : List String) : String :=
   | "pack" :: rest =>
     match whole (do let m ← pMatrix; let v ← pNat; let s ← pSize; let a ← pBool; pure (m, v, s, a)) rest with
     | some (m, v, s, a) => "ok " ++ showState (packRows v s a m.taxa m.rows) m.subs
+    | none => "bad-op"
+  | "history" :: rest =>
+    match whole (do let m ← pMatrix; let ops ← pCounted pOp; pure (m, ops)) rest with
+    | some (m, ops) =>
+      if coherent (m :: ops.flatMap opMatrices) then
+        let r := run m ops
+        "ok " ++ showState r.rows r.subs
+      else "bad-op"
     | none => "bad-op"
   | "new_subset" :: rest =>
     match whole (do let m ← pMatrix; let l ← pSomeLabel; let idx ← pCounted pNat; pure (m, l, idx)) rest with
@@ -188,6 +250,10 @@ def handle (ws : List String) : String :=
     match whole (pCounted (pCounted tok)) rest with
     | some streams => showSRes (concatFromStreams (whole pMatrix) streams)
     | none => "bad-op"
+  | "concat_streams_ns" :: rest =>
+    match whole (pCounted (pCounted tok)) rest with
+    | some streams => showSRes (concatFromStreamsNS 0 (whole pParsed) streams)
+    | none => "bad-op"
   | "concat_paths" :: rest =>
     match whole (pCounted pPath) rest with
     | some paths => showSRes (concatFromPaths (fun p => p) (whole pMatrix) paths)
@@ -217,7 +283,7 @@ def handle (ws : List String) : String :=
       | none => "bad-op"
       | some f =>
         match whole (do let m ← pMatrix; let o ← pMatrix; pure (m, o)) rest with
-        | some (m, o) => showRes (rowOp f m o)
+        | some (m, o) => if coherent [m, o] then showRes (rowOp f m o) else "bad-op"
         | none => "bad-op"
 
 def main : IO Unit := do driverLoop (← IO.getStdin) handle
